@@ -145,7 +145,10 @@ pub fn is_unreserved(b: u8) -> bool {
 pub fn pct_encode_segment(r: &mut StdRng, s: &str) -> String {
     let mut out = String::new();
     for &b in s.as_bytes() {
-        if is_unreserved(b) && !r.gen_bool(0.1) {
+        // RFC 3986 pchar: unreserved, sub-delims, ':' and '@' may appear literally in a path segment and
+        // stand for themselves there ('+' is a plus sign; only form-encoded data reads it as a space)
+        let literal_ok = is_unreserved(b) || b"!$&'()*+,;=:@".contains(&b);
+        if literal_ok && (if is_unreserved(b) { !r.gen_bool(0.1) } else { r.gen_bool(0.5) }) {
             out.push(b as char);
         } else {
             let h = if r.gen_bool(0.5) { format!("%{:02x}", b) } else { format!("%{:02X}", b) };
